@@ -63,3 +63,20 @@ func FuzzC08SkipGrammar(f *testing.F) {
 		}
 	})
 }
+
+func FuzzC10TTHDecode(f *testing.F) {
+	f.Add([]byte{0, 0, 0, 20, 0x10, 0, 0, 0, 0, 0, 0, 1, 0, 1, 0, 0, 0, 0}, byte(0))
+	f.Add([]byte{0, 0, 0, 30, 0x10, 0, 0, 2, 0, 0, 0, 9, 0, 4, 0, 0, 1, 0, 1, 0, 1, 'k', 0, 1, 'v', 0x10, 0, 1, 0, 5, 0, 1, 'x', 0}, byte(1))
+	f.Add([]byte{0, 0, 0, 30, 0x10, 0, 0, 2, 0, 0, 0, 9, 0, 3, 0, 0, 0x11, 0, 2, 'a', 'b', 0, 0x10, 0, 0, 0}, byte(3))
+	f.Add([]byte{0, 0, 0, 30, 0x10, 0, 0, 2, 0, 0, 0, 9, 0x40, 0x01, 0, 0, 0, 0}, byte(0))
+	f.Add([]byte{0, 0, 0, 30, 0x10, 0, 0, 2, 0, 0, 0, 9, 0, 2, 3, 2, 7, 8, 1, 0, 0, 0}, byte(0))
+	f.Fuzz(func(t *testing.T, data []byte, k byte) {
+		if len(data) > 1<<17 {
+			return
+		}
+		plan := faultio.Plan{Chunks: []int{int(k & 15)}, ErrAt: -1, WithData: k&16 != 0}
+		if v := checkTTHDecode(TTHFrameCase{Data: data, Plan: plan}, &cov{}); v != nil {
+			t.Fatalf("VIOLATION-CASE c10_tth_decode: %s\n%s", v.Msg, v.Stack)
+		}
+	})
+}
